@@ -7,8 +7,18 @@
 ** Parameters: kind=array|list|tuple   prop=C04|C05|C09|C10|C12
 **             maxlen=N (length bound; operations that would exceed it are not enabled)
 **             nvals=N  (element values 0..N-1, default 3)
-**             elem=int|probe   (probe: element type with constructor/destructor ledger;
+**             elem=int|probe|picky (probe: element type with constructor/destructor ledger;
+**                               picky: the same, but its assign REFUSES one poison value with
+**                               ValueError before it touches the target - failing pushes/sets
+**                               of the poison must leave contents, len and ledger unchanged;
 **                               Array and List only - a Tuple does not own its elements)
+**             alias=<bits>  aliasing calls whose argument is an element of the receiver itself
+**                          bit 1 (default): push(x,get(x,k)), append, push_at(x,get(x,k),i),
+**                          set(x,i,get(x,k)) wherever the pinned library handles them;
+**                          opt-in, each a defect of the pinned library with its own proposal:
+**                          bit 2: Array push/append/push_at of an own element when the store must grow
+**                          bit 4: concat(x,x)      bit 8: assign(x,x)
+**             poisonconcat=0|1  (picky, opt-in) concat with a source holding [ok, poison]
 **             two=0|1 bkind=array|list|tuple  (second container B: copy/assign/swap/del)
 **             same=0|1  (Tuple only: pushes use ONE shared object per value, so a tuple
 **                        can hold the same object twice - known defect D16, opt-in)
@@ -45,6 +55,35 @@
 #include "vf_bfs.h"
 #include "vf_probe.h"
 
+/* ---- Picky: Probe's twin (same layout, same ledger) whose assign refuses one value ------------- */
+
+#define PICKY_POISON 77
+struct Picky { int64_t val; uint64_t token; char* block; };
+extern var Picky;
+
+static int64_t Picky_Value_Of(var obj) {
+  if (obj == NULL) return 0;
+  int64_t v = (type_of(obj) is Picky or type_of(obj) is Probe) ? ((struct Probe*)obj)->val : c_int(obj);
+  /* refuse BEFORE anything is constructed or changed: a well-behaved element type */
+  if (v == PICKY_POISON) throw(ValueError, "Picky refuses the value %i", $I(v));
+  return v;
+}
+static void Picky_New(var self, var args) {
+  int64_t v = len(args) >= 1 ? Picky_Value_Of(get(args, $I(0))) : 0;
+  Probe_Ensure(self, "construct"); ((struct Probe*)self)->val = v;
+}
+static void Picky_Assign(var self, var obj) {
+  int64_t v = Picky_Value_Of(obj);
+  Probe_Ensure(self, "assign"); ((struct Probe*)self)->val = v;
+}
+var Picky = Cello(Picky,
+  Instance(New,    Picky_New, Probe_Del),
+  Instance(Assign, Picky_Assign),
+  Instance(Cmp,    Probe_Cmp),
+  Instance(Hash,   Probe_Hash),
+  Instance(C_Int,  Probe_C_Int),
+  Instance(Show,   Probe_Show, NULL));
+
 enum { K_ARRAY = 0, K_LIST = 1, K_TUPLE = 2 };
 static const char* KN[] = { "array", "list", "tuple" };
 
@@ -59,7 +98,9 @@ static var* R;                /* stack-resident root slots (scanned by the colle
 #define CB (R[1])
 static struct seq MA, MB;
 
-static int kindA, kindB, maxlen, nvals, two, same, probe;
+static int kindA, kindB, maxlen, nvals, two, same, probe, picky, alias = 1, poisonconcat;
+static var poisonobj;         /* an Int carrying the value Picky refuses */
+static var valobj_int0;       /* an Int 0 (source element for the poison concat) */
 static int propC05, propC10, propC12;
 static var ET;                /* element type of Array/List: Int or Probe */
 static var valobj[8];         /* value carriers 0..nvals (index nvals: a value that is never stored) */
@@ -85,7 +126,7 @@ void  __wrap_free(void* p) { if (p) vf_blocks--; __real_free(p); }
 
 static char labelbuf[200];
 static const char* LK(int kind, const char* oracle) {
-  snprintf(labelbuf, sizeof labelbuf, "%s/%s/%s/%s", KN[kind], (probe && kind != K_TUPLE) ? "probe" : "int", lastop, oracle);
+  snprintf(labelbuf, sizeof labelbuf, "%s/%s/%s/%s", KN[kind], (probe && kind != K_TUPLE) ? (picky ? "picky" : "probe") : "int", lastop, oracle);
   return labelbuf;
 }
 static const char* L(const char* oracle) { return LK(kindA, oracle); }
@@ -455,7 +496,7 @@ static void cleanup(void) {
     }
     for (int v = 0; v <= nvals; v++) del_raw(valobj[v]);
     vf_led_reset();
-    for (int v = 0; v <= nvals; v++) valobj[v] = new_raw(Probe, $I(v));
+    for (int v = 0; v <= nvals; v++) valobj[v] = new_raw(ET, $I(v));
     led_base = vf_led_live;
   }
 }
@@ -464,6 +505,8 @@ static void cleanup(void) {
 
 enum { T_PUSH, T_POP, T_APPEND, T_SET, T_PUSHAT, T_POPAT, T_REM, T_RESIZE, T_SORT, T_COPY, T_CONCAT, T_ASSIGN,
        T_B_COPY, T_B_ASSIGN_FROM_A, T_A_ASSIGN_FROM_B, T_B_DEL, T_B_PUSH, T_B_POP, T_SWAP,
+       T_AL_PUSH, T_AL_APPEND, T_AL_SET, T_AL_PUSHAT, T_AL_CONCAT_SELF, T_AL_ASSIGN_SELF,
+       T_P_POISON, T_P_CONCAT,
        T_F_IDX, T_F_REM_ABSENT, T_F_WRONG, T_F_NULL, T_F_NULLIDX, T_F_CONCAT_NULL, T_F_ASSIGN_NULL, T_F_STACK };
 enum { FO_GET, FO_SET, FO_POPAT, FO_PUSHAT, FO_PUSH, FO_APPEND };
 static const char* FON[] = { "get", "set", "pop_at", "push_at", "push", "append" };
@@ -512,6 +555,22 @@ static void make_alphabet(void) {
   addop(T_COPY, 0, 0, 0, "A=copy(A)");
   for (int s = 0; s < nsrc; s++) for (int k = 0; k < nk; k++) { srcname(s, sn, sizeof sn); addop(T_CONCAT, k, s, 0, "concat(%s%s)", KN[k], sn); }
   for (int s = 0; s < nsrc; s++) for (int k = 0; k < nk; k++) { srcname(s, sn, sizeof sn); addop(T_ASSIGN, k, s, 0, "assign(A,%s%s)", KN[k], sn); }
+  if ((alias & 1) && kindA != K_TUPLE) {
+    /* aliasing: the argument is an element of the receiver itself (a Tuple would then hold one object twice: D16) */
+    for (int k = 0; k < maxlen; k++) addop(T_AL_PUSH, k, 0, 0, "push(A,get(A,%d))", k);
+    for (int k = 0; k < maxlen; k++) addop(T_AL_APPEND, k, 0, 0, "append(A,get(A,%d))", k);
+    for (int i = 0; i < maxlen; i++) for (int k = 0; k < maxlen; k++) addop(T_AL_SET, k, 0, i, "set(A,%d,get(A,%d))", i, k);
+    for (int i = 0; i < maxlen; i++) for (int k = 0; k < maxlen; k++) addop(T_AL_PUSHAT, k, 0, i, "push_at(A,get(A,%d),%d)", k, i);
+    if (alias & 4) addop(T_AL_CONCAT_SELF, 0, 0, 0, "concat(A,A)");
+    if (alias & 8) addop(T_AL_ASSIGN_SELF, 0, 0, 0, "assign(A,A)");
+  }
+  if (picky) {
+    static const int fo[] = { FO_PUSH, FO_APPEND, FO_SET, FO_PUSHAT };
+    for (int j = 0; j < 4; j++) addop(T_P_POISON, fo[j], 0, 0, "%s(refused value)", FON[fo[j]]);
+    for (int i = 1; i < maxlen; i++) addop(T_P_POISON, FO_PUSHAT, 0, i, "push_at(refused value,%d)", i);
+    for (int i = 1; i < maxlen; i++) addop(T_P_POISON, FO_SET, 0, i, "set(%d,refused value)", i);
+    if (poisonconcat) for (int k = 0; k < 3; k++) addop(T_P_CONCAT, k, 0, 0, "concat(%s[0,refused value])", KN[k]);
+  }
   if (two) {
     addop(T_B_COPY, 0, 0, 0, "B=copy(A)");
     addop(T_B_ASSIGN_FROM_A, 0, 0, 0, "assign(B,A)");
@@ -891,6 +950,74 @@ static int apply(int op) {
     MA.n = srclen[s];
     for (int i = 0; i < srclen[s]; i++) MA.v[i] = srcseq[s][i];
     return VF_OK; }
+
+  /* ---- aliasing: the argument is an element of the receiver ---- */
+  case T_AL_PUSH: case T_AL_APPEND: case T_AL_PUSHAT: case T_AL_SET: {
+    int k = o->a, i = (int)o->i, isset = o->t == T_AL_SET, isat = o->t == T_AL_PUSHAT;
+    if (k >= n) return VF_SKIP;
+    if ((isset || isat) && i >= n) return VF_SKIP;
+    if (!isset) {
+      if (n >= maxlen) return VF_SKIP;
+      if (kindA == K_ARRAY && !(alias & 2)) {
+        /* when the backing store must grow, the pinned library reallocates before it reads the
+           argument, which then points into the freed block (proposed/seq-alias-array-push-own-element.md);
+           explored only with alias bit 2.  Spare capacity is visible white-box only. */
+#if WB
+        if (((struct Array*)CA)->nslots <= ((struct Array*)CA)->nitems) return VF_SKIP;
+#else
+        return VF_SKIP;
+#endif
+      }
+    }
+    setop("%s/own-element", isset ? "set" : isat ? "push_at" : o->t == T_AL_PUSH ? "push" : "append");
+    e = VF_CATCH(g_var = get(CA, $I(k)));
+    if (e) return raised(e, "get");
+    el = g_var;
+    if (isset) e = VF_CATCH(set(CA, $I(i), el));
+    else if (isat) e = VF_CATCH(push_at(CA, el, $I(i)));
+    else if (o->t == T_AL_PUSH) e = VF_CATCH(push(CA, el));
+    else e = VF_CATCH(append(CA, el));
+    if (e) return raised(e, lastop);
+    int v = MA.v[k];
+    if (isset) MA.v[i] = v; else if (isat) m_ins(&MA, i, v); else MA.v[MA.n++] = v;
+    return VF_OK; }
+  case T_AL_CONCAT_SELF:
+    if (2 * n > maxlen) return VF_SKIP;
+    setop("concat/self");
+    e = VF_CATCH(concat(CA, CA));
+    if (e) return raised(e, "concat(A,A)");
+    for (int i = 0; i < n; i++) MA.v[n + i] = MA.v[i];
+    MA.n = 2 * n;
+    return VF_OK;
+  case T_AL_ASSIGN_SELF:
+    setop("assign/self");
+    e = VF_CATCH(assign(CA, CA));
+    if (e) return raised(e, "assign(A,A)");
+    return VF_OK;
+
+  /* ---- an element value the element type refuses (elem=picky): must raise, nothing may change ---- */
+  case T_P_POISON: {
+    int i = (int)o->i;
+    if ((o->a == FO_SET || o->a == FO_PUSHAT) && i >= n) return VF_SKIP;
+    setop("%s/refused-element", FON[o->a]);
+    fail_begin();
+    switch (o->a) {
+    case FO_PUSH:   e = VF_CATCH(push(CA, poisonobj)); break;
+    case FO_APPEND: e = VF_CATCH(append(CA, poisonobj)); break;
+    case FO_SET:    e = VF_CATCH(set(CA, $I(i), poisonobj)); break;
+    default:        e = VF_CATCH(push_at(CA, poisonobj, $I(i))); break;
+    }
+    return fail_end(e, ValueError, ValueError, ValueError, o->name); }
+  case T_P_CONCAT: {
+    /* opt-in: the source holds an accepted value followed by the refused one */
+    if (n + 2 > maxlen) return VF_SKIP;
+    setop("concat/refused-element-in-source");
+    var src = o->a == K_ARRAY ? (var)new_raw(Array, Int) : o->a == K_LIST ? (var)new_raw(List, Int) : (var)new_raw(Tuple);
+    push(src, valobj_int0); push(src, poisonobj);
+    keep_temp(src, 0);
+    fail_begin();
+    e = VF_CATCH(concat(CA, src));
+    return fail_end(e, ValueError, ValueError, ValueError, o->name); }
 
   /* ---- second container ---- */
   case T_B_COPY:
@@ -1377,15 +1504,20 @@ int main(int argc, char** argv) {
   nvals = (int)vf_param_i("nvals", 3); if (nvals > 6) nvals = 6; if (nvals < 1) nvals = 1;
   two = (int)vf_param_i("two", 0);
   same = (int)vf_param_i("same", 0);
-  probe = vf_param_is("elem", "probe", propC05 ? "probe" : "int");
+  picky = vf_param_is("elem", "picky", "int");
+  probe = picky || vf_param_is("elem", "probe", propC05 ? "probe" : "int");
+  alias = (int)vf_param_i("alias", 1);
+  poisonconcat = (int)vf_param_i("poisonconcat", 0);
   const char* mode = vf_param("mode", "bfs");
   if (probe && (kindA == K_TUPLE || (two && kindB == K_TUPLE))) { fprintf(stderr, "h_seq: a Tuple does not own its elements; elem=probe is for array and list\n"); _exit(2); }
   if (two && (kindA == K_TUPLE) != (kindB == K_TUPLE)) { fprintf(stderr, "h_seq: two=1 pairs array/list with array/list, or tuple with tuple (a Tuple assigned from an Array references the Array's storage)\n"); _exit(2); }
   if (same && kindA != K_TUPLE) same = 0;
   vf_led_reset();
-  ET = probe ? Probe : Int;
+  ET = picky ? Picky : probe ? Probe : Int;
+  poisonobj = new_raw(Int, $I(PICKY_POISON));
+  valobj_int0 = new_raw(Int, $I(0));
 
-  for (int v = 0; v <= nvals; v++) valobj[v] = probe ? (var)new_raw(Probe, $I(v)) : (var)new_raw(Int, $I(v));
+  for (int v = 0; v <= nvals; v++) valobj[v] = new_raw(ET, $I(v));
   if (probe && kindA == K_TUPLE) for (int v = 0; v <= nvals; v++) valobj[v] = new_raw(Int, $I(v));
   wrongobj = new_raw(String, $S("zz"));
   make_sources();
@@ -1407,7 +1539,7 @@ int main(int argc, char** argv) {
   }
 
   make_alphabet();
-  snprintf(dname, sizeof dname, "seq[%s%s,%s,len<=%d,%dvals%s%s%s,%s]", KN[kindA], WB ? "" : "(black-box)", probe ? "probe" : "int", maxlen, nvals,
+  snprintf(dname, sizeof dname, "seq[%s%s,%s,len<=%d,%dvals%s%s%s,%s]", KN[kindA], WB ? "" : "(black-box)", picky ? "picky" : probe ? "probe" : "int", maxlen, nvals,
            two ? ",B=" : "", two ? KN[kindB] : "", same ? ",same-object" : "", prop);
   struct vf_domain d = { dname, nops, reset, cleanup, apply, check, canon, opname, nontrivial,
                          (size_t)vf_param_i("depth", 0), (size_t)vf_param_i("max_states", 0) };
